@@ -331,6 +331,31 @@ def check_common_record(chk, tus, rule):
     return len(names)
 
 
+def element_stores(text):
+    """the table stores of an emitted InitTables body, in order: [(table expression, entry index, function identifier)].  The entry index
+    is absolute (an int) when the segment offset is a constant - whether it is written as `offset=2U; ...data[offset+1]` or folded
+    into `...data[3]` - and ('<offset expression>', k) for an offset taken from a global"""
+    out = []
+    base = None
+    for m in re.finditer(r'\boffset\s*=\s*([^;]+);|([^;\n=]*?)\.data\[\s*([^\]]+?)\s*\]\s*=\s*\(wasmFunc\)\s*\(?&?\s*(\w+)\)?\s*;', text):
+        if m.group(1) is not None:
+            e = m.group(1).strip()
+            mc = re.fullmatch(r'\(?\s*(\d+)[uUlL]*\s*\)?', e)
+            base = int(mc.group(1)) if mc else e
+            continue
+        tab, idx, fn = m.group(2).strip(), m.group(3).replace(' ', ''), m.group(4)
+        mo = re.fullmatch(r'offset(?:\+(\d+)[uU]?)?|(\d+)[uU]?\+offset', idx)
+        mn = re.fullmatch(r'(\d+)[uUlL]*', idx)
+        if mo:
+            k = int(mo.group(1) or mo.group(2) or 0)
+            out.append((tab, base + k if isinstance(base, int) else (base, k), fn))
+        elif mn:
+            out.append((tab, int(mn.group(1)), fn))
+        else:
+            out.append((tab, ('?' + idx, 0), fn))
+    return out
+
+
 def shared_inheritance(chk, f3, rule, tag='', limits=(1, 4)):
     ok = re.search(r'if\s*\(parent\s*==\s*NULL\)\s*\{\s*i->m0\s*=\s*WASM_MEMORY_ALLOCATE_SHARED\(%d,\s*%d\)\s*;\s*\}\s*else\s*\{\s*i->m0\s*=\s*parent->m0\s*;\s*\}'
                    % limits, f3)
@@ -430,13 +455,12 @@ def check_shapes(chk, it):
                    % (' | '.join(got_loads), want_loads), 'wasmCWriteInitMemories:load-arguments')
         # element stores
         if sh['elems']:
-            stores = re.findall(r'([^;\n]*)\.data\[offset\s*\+\s*(\d+)\]\s*=\s*\(wasmFunc\)\s*&?\s*([\w]+)\s*;', fns.get('modInitTables', ''))
             want_tab = 'i->t0' if sh['table'] == 'defined' else '(*i->env__table)'
-            got = [(t.strip(), int(k), f) for t, k, f in stores]
-            want = [(want_tab, 0, 'f1'), (want_tab, 1, 'env__imp0'), (want_tab, 2, 'f3')]
-            okel = got == want and re.search(r'offset\s*=\s*2U\s*;', fns.get('modInitTables', '')) is not None and 'modInitTables' in called
+            got = element_stores(fns.get('modInitTables', ''))
+            want = [(want_tab, 2, 'f1'), (want_tab, 3, 'env__imp0'), (want_tab, 4, 'f3')]      # absolute entries: offset 2 + position
+            okel = got == want and 'modInitTables' in called
             chk.expect(okel, 'R06.3', 'element-stores[%s]' % label,
-                       'element segment [1,0,3] at offset 2 of the %s table is emitted as %r (offset statement present: %s); expected %r'
+                       'element segment [1,0,3] at offset 2 of the %s table is stored as (table, entry, function) = %r (InitTables called: %s); expected %r'
                        % (sh['table'], got, 'offset' in fns.get('modInitTables', ''), want), 'wasmCWriteInitTables:elements')
     chk.extra['module_shapes'] = n
     return n
